@@ -103,13 +103,21 @@ def rule_oss_addr(ctx, cfg, F):
         R.violate("anchor-missing:connect", "connect / OsIpcOneShotServer::new not found", config=cfg)
         return
     n = 0
+    builders = {}
+    BUILD = ("libc::strncpy", "libc::strcpy", "libc::memcpy", "std::ptr::copy_nonoverlapping", "std::ptr::copy")
     for f, sysc in ((new, "libc::bind"), (con, "libc::connect")):
         for b, t in f.calls_to(sysc):
             n += 1
-            if "platform::unix::new_sockaddr_un" in _deep_chain(f, t["args"][1]):
-                R.ok("%s: %s gets the address new_sockaddr_un built" % (f.path, sysc), f.loc(b), cfg)
+            chain = _deep_chain(f, t["args"][1])
+            # how the address is made from the name: the crate's builder function, or (builder inlined) the copy into sun_path
+            builders[sysc] = {c for c in chain if (c.startswith("platform::unix::") and "sockaddr" in c.lower()) or c in BUILD}
+            if builders[sysc]:
+                R.ok("%s: %s gets an address built by %s" % (f.path, sysc, ", ".join(sorted(builders[sysc]))), f.loc(b), cfg)
             else:
-                R.violate("%s:address-origin" % f.path, "%s in %s does not use the address new_sockaddr_un builds from the name" % (sysc, f.path), f.path, f.loc(b), config=cfg)
+                R.violate("%s:address-origin" % f.path, "%s in %s does not use an address built from the name" % (sysc, f.path), f.path, f.loc(b), config=cfg)
+    if len(builders) == 2 and builders["libc::bind"] and builders["libc::connect"] and builders["libc::bind"] != builders["libc::connect"]:
+        R.violate("%s:address-built-differently" % con.path, "the binding side builds the address with %s, the connecting side with %s: they may disagree on what a name means" % (
+            sorted(builders["libc::bind"]), sorted(builders["libc::connect"])), con.path, con.loc(0), config=cfg)
     R.count("address_uses[%s]" % cfg, n)
     gates = {b for b, t in con.calls() if strip_generics(callee_name(t)) in ("libc::socket", "libc::connect")}
     before = con.reachable(0, avoid=gates)
@@ -135,11 +143,28 @@ def _deep_chain(f, operand, limit=200):
     if l is not None:
         work.append(l)
     defs = f.defs()
+    # memory filled through a pointer (strncpy(addr.sun_path.as_mut_ptr(), path, n), ptr::copy_nonoverlapping(src, dst, n)): the destination's
+    # base local also derives from the source
+    from rules.send import _root_place
+    writes = []
+    for b_, t_ in f.calls():
+        nm_ = strip_generics(callee_name(t_))
+        di, si_ = {"libc::strncpy": (0, 1), "libc::strcpy": (0, 1), "libc::memcpy": (0, 1), "std::ptr::copy_nonoverlapping": (1, 0), "std::ptr::copy": (1, 0),
+                   "std::intrinsics::copy_nonoverlapping": (1, 0)}.get(nm_, (None, None))
+        if di is not None and len(t_["args"]) > max(di, si_):
+            rp = _root_place(f, t_["args"][di])
+            sa = t_["args"][si_]
+            if rp is not None and sa["k"] in ("cp", "mv"):
+                writes.append((rp[0], sa["pl"]["l"], nm_))
     while work and len(seen) < limit:
         l = work.pop()
         if l in seen:
             continue
         seen.add(l)
+        for (dl_, sl_, nm_) in writes:
+            if dl_ == l:
+                out.add(nm_)
+                work.append(sl_)
         for (b, si, node) in defs.get(l, []):
             if f.is_cleanup(b):
                 continue
